@@ -13,6 +13,10 @@ import (
 
 func main() {
 	dir := os.Args[1] // .../sim/inject
+	if err := rewrite.GenReexport("sync", filepath.Join(dir, "gsync"), scratch.GoEnv()); err != nil {
+		fmt.Fprintln(os.Stderr, "gsync", err)
+		os.Exit(1)
+	}
 	for std, name := range map[string]string{"os": "simos", "time": "simtime", "math/rand": "simrand", "math/rand/v2": "simrand2", "crypto/rand": "simcrand", "io/ioutil": "simioutil", "sync": "simsync", "runtime": "simruntime"} {
 		if err := rewrite.GenReexport(std, filepath.Join(dir, name), scratch.GoEnv()); err != nil {
 			fmt.Fprintln(os.Stderr, std, err)
